@@ -458,7 +458,7 @@ def get_header_lines(header):
 
 first_line_re = re.compile(
     rb"(?P<method>[!#$%&'*+\-.^_`|~0-9A-Za-z]+) "
-    rb"(?P<uri>[^ ]+)"
+    rb"(?P<uri>[^\x00-\x20\x7f]+)"
     rb"(?: HTTP/(?P<version>[0-9]\.[0-9]))?"
 )
 
